@@ -32,8 +32,36 @@ func c01Direct(rc *RunCtx, configs int, logCalls bool) {
 		for j := r.Intn(3); j > 0; j-- {
 			attesters = append(attesters, ct.Attester{Attester: []string{"", "zz", "04ab", "0x", "0xzz04"}[r.Intn(5)]})
 		}
-		r.Shuffle(len(attesters), func(i, j int) { attesters[i], attesters[j] = attesters[j], attesters[i] })
 		outsider := AttesterPool[perm[n]]
+		// a confusable entry: the negation of the outsider's key (same X coordinate, other Y) is enabled, the outsider is not
+		if ci%3 == 1 {
+			neg := ref.NegatePub(outsider.Pub)
+			attesters = append(attesters, ct.Attester{Attester: []string{"", "0x"}[r.Intn(2)] + hex.EncodeToString(neg)})
+			pubs = append(pubs, neg)
+		}
+		// the same key enabled under further accepted spellings (the store keys entries by spelling)
+		dupSpell := 0
+		if ci%2 == 0 {
+			for i := 0; i < n && dupSpell < 3; i++ {
+				if r.Intn(2) == 0 {
+					have := ""
+					for _, a := range attesters {
+						if b, ok := ref.ParseAttesterString(a.Attester); ok && string(b) == string(enabled[i].Pub) {
+							have = a.Attester
+						}
+					}
+					for st := 0; st < 4; st++ {
+						if sp := enabled[i].Spell(st); sp != have {
+							attesters = append(attesters, ct.Attester{Attester: sp})
+							pubs = append(pubs, enabled[i].Pub)
+							dupSpell++
+							break
+						}
+					}
+				}
+			}
+		}
+		r.Shuffle(len(attesters), func(i, j int) { attesters[i], attesters[j] = attesters[j], attesters[i] })
 		for t := 1; t <= n; t++ {
 			sp := r.Perm(n)
 			var signers []*ref.Key
@@ -57,6 +85,25 @@ func c01Direct(rc *RunCtx, configs int, logCalls bool) {
 					}
 					c01Judge(rc, msg, att, attesters, pubs, uint32(t), comp, op, idx, logCalls)
 					_ = oi
+				}
+			}
+			// thresholds counted in entries rather than keys: repeating a multiply-spelled key's signature must not count twice
+			if dupSpell > 0 && t == n {
+				for extra := 1; extra <= dupSpell; extra++ {
+					base := ref.HonestAttestation(msg, signers, 0)
+					for k := 0; k < extra; k++ {
+						base = append(base, base[(k%t)*65:(k%t)*65+65]...)
+					}
+					c01Judge(rc, msg, base, attesters, pubs, uint32(t+extra), "repeat-multiply-spelled-signer", "repeat-multiply-spelled-signer", 0, logCalls)
+					// and sorted with the duplicate adjacent to its original
+					var adj []byte
+					for k := 0; k < t; k++ {
+						adj = append(adj, base[k*65:k*65+65]...)
+						if k < extra {
+							adj = append(adj, base[k*65:k*65+65]...)
+						}
+					}
+					c01Judge(rc, msg, adj, attesters, pubs, uint32(t+extra), "repeat-multiply-spelled-signer-adjacent", "repeat-multiply-spelled-signer", 1, logCalls)
 				}
 			}
 			// honest attestations in each v style, also with more/less enabled than needed
